@@ -154,7 +154,7 @@ func c04Family(name string, n int) string {
 
 // c04Outcome parses text through one entry point under the step budget and records the
 // outcome shape and, for a result, whether it can be printed, walked and cloned.
-func c04Outcome(entry, text string, params map[string]interface{}, setParams bool, budgetMul int) M {
+func c04Outcome(entry, text string, params map[string]interface{}, setParams bool, budgetMul int, postOps bool) M {
 	m := newMeter("")
 	m.budget = budgetMul*len(text) + 4096
 	o := M{}
@@ -221,6 +221,12 @@ func c04Outcome(entry, text string, params map[string]interface{}, setParams boo
 		o["out"] = "neither"
 	default:
 		o["out"] = "ok"
+		if !postOps {
+			// growth records measure parsing only: String() of a left-deep chain of n operators
+			// copies O(n^2) bytes, which is outside C04's "time proportional to the input" claim
+			o["post"] = "ok"
+			break
+		}
 		// a returned result can be printed and traversed (and cloned) without panicking
 		post := "ok"
 		if pp := guard(func() { _ = node.String() }); pp != "" {
@@ -257,8 +263,8 @@ func init() {
 				return M{"unknown_family": true}
 			}
 			o["len1"], o["len2"] = len(t1), len(t2)
-			o["r1"] = c04Outcome(ent, t1, nil, false, 256)
-			o["r2"] = c04Outcome(ent, t2, nil, false, 256)
+			o["r1"] = c04Outcome(ent, t1, nil, false, 256, false)
+			o["r2"] = c04Outcome(ent, t2, nil, false, 256, false)
 			return o
 		}
 		text := caseInput(c)
@@ -268,7 +274,7 @@ func init() {
 		}
 		params, set := c04Binding(str(c["bind"]))
 		for _, ent := range []string{"query", "stmt", "expr"} {
-			o[ent] = c04Outcome(ent, text, params, set, 64)
+			o[ent] = c04Outcome(ent, text, params, set, 64, true)
 		}
 		return o
 	}})
